@@ -32,6 +32,10 @@ def obligations(tier):
             if name != "VWMA":
                 for s in ((0, 1, 2, p, p + 1) if tier == "thorough" else (1, p)):
                     obs.append(Ob(f"{name}(period={p})/late-input s={s}/n={n + s}", dict(spec=["ind", name, dict(period=p)], n=n + s, late=s), DEF, weight=n + s, budget_s=600))
+    # the definitions do not depend on how the indicator is named (a '.' in a suffix / override is legal: it is sanitised)
+    for name, extra in (("EMA", dict(name_suffix="v1.5")), ("SMA", dict(fullname_override="my.SMA")), ("HMA", dict(name_suffix="x.y"))):
+        p0 = 4 if name == "HMA" else 2
+        obs.append(Ob(f"{name}(period={p0}){extra}/price/n={p0 + 4}", dict(spec=["ind", name, dict(period=p0)], n=p0 + 4, extra=extra), DEF, weight=5, budget_s=300))
     # 'recalculate() ... ideal for changing an indicator parameters midway' (Hexital.recalculate): after the period is
     # changed and the readings are recalculated, they obey the definition for the NEW period
     for name in ("SMA", "EMA", "RMA", "WMA", "VWMA"):
